@@ -342,6 +342,8 @@ class PaxosNode(Entity):
                 del self._proposal_futures[original_ballot]
             self._proposed_values[new_number] = value
             del self._proposed_values[original_ballot]
+            # The old ballot is abandoned: late promises for it must not start phase 2
+            self._phase1_responses.pop(original_ballot, None)
             self._phase1_responses[new_number] = []
             self._phase2_responses[new_number] = 0
 
@@ -439,6 +441,10 @@ class PaxosNode(Entity):
         metadata = event.context.get("metadata", {})
         ballot_number = metadata["ballot_number"]
         self._accepts_received += 1
+
+        # Acks for a ballot abandoned by a retry carry no value any more
+        if ballot_number not in self._proposed_values:
+            return []
 
         if ballot_number not in self._phase2_responses:
             self._phase2_responses[ballot_number] = 0
